@@ -1,0 +1,24 @@
+//go:build verif
+
+package aqua
+
+import (
+	"time"
+
+	"gitlab.com/aquachain/aquachain/aquadb"
+	"gitlab.com/aquachain/aquachain/core"
+	"gitlab.com/aquachain/aquachain/params"
+)
+
+// NewBloomIndexerForSim is NewBloomIndexer with the confirmation depth and the
+// throttling exposed, so that a simulation can reach indexed sections with
+// short chains. Only compiled with the "verif" build tag.
+func NewBloomIndexerForSim(cfg *params.ChainConfig, db aquadb.Database, size, confirms uint64, throttle time.Duration) *core.ChainIndexer {
+	backend := &BloomIndexer{
+		db:   db,
+		size: size,
+	}
+	table := aquadb.NewTable(db, string(core.BloomBitsIndexPrefix))
+
+	return core.NewChainIndexer(cfg, db, table, backend, size, confirms, throttle, "bloombits")
+}
